@@ -42,6 +42,10 @@ def run(ctx):
     ctx.do(rule_registry_class_attr)
     ctx.do(rule_input_parsers_guarded)
     ctx.do(rule_recursion_converted)
+    # "a failed construction / registration leaves the registries unchanged": the composite decorators undo their first
+    # registration when the second is refused
+    from .C19 import rule_composite_registrations
+    ctx.do(rule_composite_registrations, rule_id="C17.registries-unchanged-on-failure")
     from .hidden_state import rule_no_hidden_state
     ctx.do(rule_no_hidden_state, "C17.history-independence")
 
